@@ -17,15 +17,15 @@ Cases == JsonDeserialize(IOEnv.VEL_CASES)
 Mon   == IOEnv.VEL_MON
 
 ParamsOf(c) == [level |-> c.level, pay |-> c.pay, fee |-> c.fee,
-                keep |-> IOEnv.VEL_KEEP = "true", persistFee |-> IOEnv.VEL_PERSIST_FEE = "true"]
+                keep |-> IOEnv.VEL_KEEP = "true", persistFee |-> IOEnv.VEL_PERSIST_FEE = "true", ns |-> c.ns]
 PS == [i \in DOMAIN Cases |-> ParamsOf(Cases[i])]
 
 VARIABLES l, g
-Init == l = 1 /\ g = [pay |-> <<0>>, fee |-> <<0>>]
+Init == l = 1 /\ g = [pay |-> <<0>>, fee |-> <<0>>, seen |-> <<>>]
 Next == /\ l <= Len(Steps)
         /\ LET e == Steps[l]
                P == PS[e.c] IN
-           g' = GhostFor(Mon, IF e.step = 0 THEN InitGhost(P) ELSE g, e.req, [ok |-> e.ok = 1], P)
+           g' = GhostFor(Mon, IF e.step = 0 THEN InitGhost(P) ELSE g, e.req, [ok |-> e.ok = 1, err |-> e.ok < 0], P)
         /\ l' = l + 1
 Spec == Init /\ [][Next]_<<l, g>>
 
@@ -37,11 +37,11 @@ C12 == l > 1 =>
 
 Conforms(e) == LET P == PS[e.c]
                    o == Step(e.pre, e.req, P) IN
-               /\ e.ok = (IF o.resp.ok THEN 1 ELSE 0)
+               /\ e.ok = Code(o.resp)
                /\ Norm(o.s, P) = Norm(e.post, P)
 Idx == DOMAIN Steps
 Divergent == {i \in Idx : ~Conforms(Steps[i])}
-Failed    == {i \in Idx : Steps[i].ok < 0}
+Failed    == {i \in Idx : Steps[i].ok < 0 /\ ~Step(Steps[i].pre, Steps[i].req, PS[Steps[i].c]).resp.err}
 \* consecutive steps of one sequence must chain, the first must start in the initial state
 Broken    == {i \in Idx : \/ (Steps[i].step > 0 /\ i > 1 /\ Steps[i].pre # Steps[i - 1].post)
                           \/ (Steps[i].step = 0 /\
@@ -53,7 +53,7 @@ MonOK(gg, P) == /\ (Mon # "fee" => Inv_C12_pay(gg, P))
                 /\ (Mon # "pay" => Inv_C12_fee(gg, P))
 Scan == FoldLeft(LAMBDA acc, e :
                    LET P  == PS[e.c]
-                       g1 == GhostFor(Mon, IF e.step = 0 THEN InitGhost(P) ELSE acc.g, e.req, [ok |-> e.ok = 1], P)
+                       g1 == GhostFor(Mon, IF e.step = 0 THEN InitGhost(P) ELSE acc.g, e.req, [ok |-> e.ok = 1, err |-> e.ok < 0], P)
                        seen == e.step > 0 /\ acc.bad # <<>> /\ acc.bad[Len(acc.bad)].seq = e.seq IN
                    [g |-> g1,
                     bad |-> IF ~seen /\ ~MonOK(g1, P)
@@ -61,12 +61,12 @@ Scan == FoldLeft(LAMBDA acc, e :
                                                   total_pay |-> CapSum(g1.pay, 1, Len(g1.pay)),
                                                   total_fee |-> CapSum(g1.fee, 1, Len(g1.fee))])
                             ELSE acc.bad],
-                 [g |-> [pay |-> <<0>>, fee |-> <<0>>], bad |-> <<>>], Steps)
+                 [g |-> [pay |-> <<0>>, fee |-> <<0>>, seen |-> <<>>], bad |-> <<>>], Steps)
 
 Describe(i) == LET e == Steps[i] P == PS[e.c] IN
   [line |-> i, seq |-> e.seq, step |-> e.step, case |-> Cases[e.c].id, pre |-> e.pre, req |-> e.req,
    ok |-> e.ok, post |-> e.post, detail |-> e.detail,
-   expected |-> LET o == Step(e.pre, e.req, P) IN [ok |-> o.resp.ok, post |-> o.s]]
+   expected |-> LET o == Step(e.pre, e.req, P) IN [ok |-> Code(o.resp), post |-> o.s]]
 
 Report == [ steps |-> Len(Steps),
             violating |-> Scan.bad,
